@@ -24,7 +24,16 @@ META = {
                   "exact (integers, squared distances); the implementation orders by binary64 sqrt distances, so points whose true "
                   "distances differ by less than rounding resolution are ties for it (tested, not proved: a rounding class with "
                   "coordinates around 2^20..2^40 is checked by an exact-integer oracle up to 2^-46 relative).",
-    "level_note": "Trusted: Coq kernel + vm_compute; the kdtree/aabb translator; the correspondence harness (generators, "
+    "level_note": "Deliberately left free (not constrained by the oracle; compared only through the relation the property fixes): "
+                  "which of several equidistant points is returned and in which order ties come; the order of a radius answer; the "
+                  "internal layout of the tree (node numbering, axes, split values, boxes, leaf order: compared with the model in the "
+                  "correspondence only, never a concrete violation; 'every point lies in its leaf box' is a mechanism obligation); "
+                  "exception class and message of any refusal; whether argument forms the text does not name (list / tuple containers, "
+                  "keyword arguments, omitted arguments and their default values, other spellings of the strategy, numpy scalars for k / "
+                  "leaf size / r, list / tuple / int-array query points) are refused or answered (if answered the answer must be exact); "
+                  "types of the returned indices and containers; warnings, logs, extra attributes; repeated calls need not return the "
+                  "same tied indices. Constrained beyond the sentence at the coordinator's request: the caller's point array, query "
+                  "point and other PriorityQueue objects are not modified. Trusted: Coq kernel + vm_compute; the kdtree/aabb translator; the correspondence harness (generators, "
                   "driver canonicalisation, doubling of coordinates so medians are integral, comparison of squared instead "
                   "of square-rooted distances on small integers); the candidate heap is modelled concretely (heapq sift algorithm copied "
                   "from the C20 model with its proved contract, comparator/plumbing regenerated from priority_queue.py); answers are "
@@ -186,17 +195,22 @@ SCALES = [-1000, -600, -300, -100, -24, 24, 100, 130, 300, 480, 600, 990]
 
 
 def add_scenario(rng, case):
-    """Call forms, spellings, numeric representations, repeated / failing calls, coordinate scale (hardening classes 3-7, 9, 11)."""
-    case["call"] = rng.choice(["pos", "pos", "kw", "default"])
+    """Call forms, spellings, numeric representations, repeated / failing calls, coordinate scale (hardening classes 3-7, 9, 11).
+    Half of the cases use only the forms the property text names (ndarray points, array query point, python numbers,
+    positional arguments, canonical strategy names): a refusal there is a violation."""
+    canonical = rng.random() < 0.5
+    if canonical and case.get("container") in ("list", "tuple"):
+        case["container"] = "float"
+    case["call"] = "pos" if canonical else rng.choice(["pos", "kw", "default"])
     if case["call"] == "default" and rng.random() < 0.5:       # make the defaults themselves occur
         case["mls"] = 10 if rng.random() < 0.5 else case["mls"]
         case["strategy"] = "fast" if rng.random() < 0.5 else case["strategy"]
         if case["knn"]:
             case["knn"][0][1] = 1
-    if rng.random() < 0.3:
+    if not canonical and rng.random() < 0.4:
         case["strategy_spelling"] = rng.choice(SPELL[case["strategy"]])
-    case["numrep"] = rng.choice(["py", "py", "np64", "np32"])
-    case["qform"] = rng.choice(["array", "array", "list", "tuple", "intarray"])
+    case["numrep"] = "py" if canonical else rng.choice(["py", "np64", "np32"])
+    case["qform"] = "array" if canonical else rng.choice(["array", "list", "tuple", "intarray"])
     if rng.random() < 0.4:
         case["repeat"] = True
     if rng.random() < 0.2:
@@ -332,74 +346,109 @@ def bound(b):
     return b
 
 
+FREE_FORMS = ("list / tuple container", "keyword arguments", "arguments omitted at their defaults", "other spelling of the strategy",
+              "numpy scalars for k / max_leaf_size / r", "list / tuple / integer-array query point")
+
+
+def free_forms(case):
+    """Argument forms of this case about which the property text says nothing (it speaks of point ARRAYS, query POINTS, k, radii,
+    leaf sizes and the three strategies): a refusal of such a form is accepted, an answer must satisfy the property."""
+    f = []
+    if case.get("container") in ("list", "tuple"):
+        f.append("list / tuple container")
+    if case.get("call") == "kw":
+        f.append("keyword arguments")
+    if case.get("call") == "default":
+        f.append("arguments omitted at their defaults")
+    if case.get("strategy_spelling") and case["strategy_spelling"] != case["strategy"]:
+        f.append("other spelling of the strategy")
+    if case.get("numrep", "py") != "py":
+        f.append("numpy scalars for k / max_leaf_size / r")
+    if case.get("qform", "array") not in ("array", "typed"):
+        f.append("list / tuple / integer-array query point")
+    return f
+
+
+def is_refusal(ans):
+    return bool(ans) and ans[0] == "error" and ans[1] != "timeout"
+
+
 def oracle(case, obs):
-    """None, or (class-key, message) for the first way the observation violates the C11 sentence."""
+    """None, or (class-key, message) for the first way the observation violates the C11 sentence.
+    Only what the sentence states: the build finishes, the leaves partition the points, query / query_radius answers are
+    exact (distances, not particular tied indices; sets, not orders)."""
     pts, n, d = case["pts"], len(case["pts"]), case["dim"]
+    free = free_forms(case)
     if obs["status"] == "skipped":
         return None
     if obs["status"] == "timeout":
         return ("build-nontermination", "building the tree did not finish within the time limit (%d pivots drawn so far)"
                 % obs.get("pivots_so_far", -1))
     if obs["status"] != "ok":
+        if free:
+            return None          # a refusal (any exception) of an argument form the text does not name
         return ("build-error", "building the tree failed: %s" % obs.get("msg"))
-    # every input point in exactly one leaf, inside the leaf's (closed) box
-    seen = {}
-    for nd in obs["nodes"]:
-        if nd[0] != "L":
-            continue
-        _, nid, _, lp, lo, hi = nd
-        for i in lp:
-            if i in seen:
-                return ("partition", "point %d is stored in leaves %d and %d" % (i, seen[i], nid))
-            if not 0 <= i < n:
-                return ("partition", "leaf %d stores the index %d which is not a point" % (nid, i))
-            seen[i] = nid
-            for a in range(d):
-                c = 2 * pts[i][a]
-                if not (bound(lo[a]) <= c <= bound(hi[a])):
-                    return ("leaf-box", "point %d %s lies outside the box of its leaf %d (bounds x2: %s .. %s on axis %d)"
-                            % (i, pts[i], nid, lo[a], hi[a], a))
-    if len(seen) != n:
-        return ("partition", "points %s are stored in no leaf" % sorted(set(range(n)) - set(seen))[:5])
-    for (Q, k), ans in zip(case["knn"], obs["knn"]):
-        if ans and ans[0] == "error":
-            return ("knn-error", "query(%s/2, %d) failed: %s" % (Q, k, ans[1]))
-        if len(ans) != min(k, n):
-            return ("knn-count", "query(%s/2, k=%d) returned %d indices, expected min(k,n)=%d" % (Q, k, len(ans), min(k, n)))
-        if len(set(ans)) != len(ans) or any(not 0 <= i < n for i in ans):
-            return ("knn-indices", "query(%s/2, k=%d) returned %s: repeated or invalid index" % (Q, k, ans))
-        ds = [d2(pts[i], Q) for i in ans]
-        brute = sorted(d2(p, Q) for p in pts)[:k]
-        if case.get("float_only"):
-            # exact integers, but two distances within binary64 rounding of each other may come in either order
-            if any(not close_le(ds[i], ds[i + 1]) for i in range(len(ds) - 1)):
-                return ("knn-order", "query(%s/2, k=%d) distances decrease by more than rounding: %s" % (Q, k, ds))
-            if any(not (close_le(a, b) and close_le(b, a)) for a, b in zip(sorted(ds), brute)):
-                return ("knn-not-nearest", "query(%s/2, k=%d) squared distances x4 %s differ from the k smallest %s by more than rounding"
-                        % (Q, k, ds, brute))
-            continue
-        if any(ds[i] > ds[i + 1] for i in range(len(ds) - 1)):
-            return ("knn-order", "query(%s/2, k=%d) distances are not non-decreasing: %s" % (Q, k, ds))
-        if ds != brute:
-            return ("knn-not-nearest", "query(%s/2, k=%d) squared distances x4 %s, the k smallest are %s" % (Q, k, ds, brute))
-    for (Q, m), ans in zip(case["rad"], obs["rad"]):
-        if ans and ans[0] == "error":
-            return ("radius-error", "query_radius(%s/2, sqrt(%d)/2) failed: %s" % (Q, m, ans[1]))
-        if case.get("float_only"):
+    # every input point in exactly one leaf
+    leaves = obs.get("leaves")
+    if leaves is None and obs.get("nodes") is not None:
+        leaves = [nd[3] for nd in obs["nodes"] if nd[0] == "L"]
+    if leaves is not None:
+        seen = {}
+        for li, lp in enumerate(leaves):
+            for i in lp:
+                if i in seen:
+                    return ("partition", "point %d is stored in two leaves (%d-th and %d-th)" % (i, seen[i], li))
+                if not 0 <= i < n:
+                    return ("partition", "a leaf stores the index %d which is not a point" % i)
+                seen[i] = li
+        if len(seen) != n:
+            return ("partition", "points %s are stored in no leaf" % sorted(set(range(n)) - set(seen))[:5])
+    for which, knn_obs in (("", obs["knn"]), (" (repeated call)", obs.get("knn_again") or [])):
+        for (Q, k), ans in zip(case["knn"], knn_obs):
+            if ans and ans[0] == "error":
+                if free and is_refusal(ans):
+                    continue
+                return ("knn-error", "query(%s/2, %d)%s failed: %s" % (Q, k, which, ans[1]))
+            if case.get("call") == "default" and k == 1 and n > 0 and len(ans) >= 1:
+                k = len(ans)     # k was omitted: the text does not fix the default, the answer must be exact for the k it chose
+            if len(ans) != min(k, n):
+                return ("knn-count", "query(%s/2, k=%d)%s returned %d indices, expected min(k,n)=%d" % (Q, k, which, len(ans), min(k, n)))
             if len(set(ans)) != len(ans) or any(not 0 <= i < n for i in ans):
-                return ("radius-set", "query_radius(%s/2, sqrt(%d)/2) returned %s: repeated or invalid index" % (Q, m, ans))
-            inside = [i for i in range(n) if not close_le(m, d2(pts[i], Q))]          # clearly inside: d2 (1+eps) < m
-            outside = [i for i in range(n) if not close_le(d2(pts[i], Q), m)]         # clearly outside
-            if not set(inside) <= set(ans) or set(ans) & set(outside):
-                return ("radius-set", "query_radius(%s/2, sqrt(%d)/2) returned %s; clearly inside %s, clearly outside %s"
-                        % (Q, m, sorted(ans), inside, outside))
-            continue
-        want = sorted(i for i in range(n) if d2(pts[i], Q) <= m)
-        if sorted(ans) != want:
-            return ("radius-set", "query_radius(%s/2, sqrt(%d)/2) returned %s, the points within the radius are %s"
-                    % (Q, m, sorted(ans), want))
-    if obs.get("repeat_mismatch"):
-        return ("repeat-call-differs", "the same query issued twice on the same tree: " + obs["repeat_mismatch"])
+                return ("knn-indices", "query(%s/2, k=%d)%s returned %s: repeated or invalid index" % (Q, k, which, ans))
+            ds = [d2(pts[i], Q) for i in ans]
+            brute = sorted(d2(p, Q) for p in pts)[:k]
+            if case.get("float_only"):
+                # exact integers, but two distances within binary64 rounding of each other may come in either order
+                if any(not close_le(ds[i], ds[i + 1]) for i in range(len(ds) - 1)):
+                    return ("knn-order", "query(%s/2, k=%d)%s distances decrease by more than rounding: %s" % (Q, k, which, ds))
+                if any(not (close_le(a, b) and close_le(b, a)) for a, b in zip(sorted(ds), brute)):
+                    return ("knn-not-nearest", "query(%s/2, k=%d)%s squared distances x4 %s differ from the k smallest %s by more than rounding"
+                            % (Q, k, which, ds, brute))
+                continue
+            if any(ds[i] > ds[i + 1] for i in range(len(ds) - 1)):
+                return ("knn-order", "query(%s/2, k=%d)%s distances are not non-decreasing: %s" % (Q, k, which, ds))
+            if ds != brute:
+                return ("knn-not-nearest", "query(%s/2, k=%d)%s squared distances x4 %s, the k smallest are %s" % (Q, k, which, ds, brute))
+    for which, rad_obs in (("", obs["rad"]), (" (repeated call)", obs.get("rad_again") or [])):
+        for (Q, m), ans in zip(case["rad"], rad_obs):
+            if ans and ans[0] == "error":
+                if free and is_refusal(ans):
+                    continue
+                return ("radius-error", "query_radius(%s/2, sqrt(%d)/2)%s failed: %s" % (Q, m, which, ans[1]))
+            if case.get("float_only"):
+                if len(set(ans)) != len(ans) or any(not 0 <= i < n for i in ans):
+                    return ("radius-set", "query_radius(%s/2, sqrt(%d)/2)%s returned %s: repeated or invalid index" % (Q, m, which, ans))
+                inside = [i for i in range(n) if not close_le(m, d2(pts[i], Q))]          # clearly inside: d2 (1+eps) < m
+                outside = [i for i in range(n) if not close_le(d2(pts[i], Q), m)]         # clearly outside
+                if not set(inside) <= set(ans) or set(ans) & set(outside):
+                    return ("radius-set", "query_radius(%s/2, sqrt(%d)/2)%s returned %s; clearly inside %s, clearly outside %s"
+                            % (Q, m, which, sorted(ans), inside, outside))
+                continue
+            want = sorted(i for i in range(n) if d2(pts[i], Q) <= m)
+            if sorted(ans) != want:
+                return ("radius-set", "query_radius(%s/2, sqrt(%d)/2)%s returned %s, the points within the radius are %s"
+                        % (Q, m, which, sorted(ans), want))
+    # requested by the coordinator (rounds 2-3), kept: objects of one session never influence each other
     if obs.get("query_point_modified_by"):
         return ("query-point-modified", "the caller's query point was modified by %s" % obs["query_point_modified_by"])
     if obs.get("input_modified_by_build") or obs.get("input_modified_by_query"):
@@ -410,6 +459,26 @@ def oracle(case, obs):
         if obs.get("ambient_after") != want:
             return ("ambient-queue-changed", "other PriorityQueue objects alive during the run were modified: they held %s, "
                     "afterwards %s" % (want, obs.get("ambient_after")))
+    return None
+
+
+def mechanism_check(case, obs):
+    """Not part of the property sentence (never a concrete violation): every point lies in the box of its leaf - what the
+    pruning proofs rely on. A failure leaves an obligation undischarged."""
+    if obs.get("status") != "ok" or not obs.get("nodes"):
+        return None
+    pts, d = case["pts"], case["dim"]
+    for nd in obs["nodes"]:
+        if nd[0] != "L":
+            continue
+        _, nid, _, lp, lo, hi = nd
+        for i in lp:
+            if not 0 <= i < len(pts):
+                continue
+            for a in range(d):
+                c = 2 * pts[i][a]
+                if not (bound(lo[a]) <= c <= bound(hi[a])):
+                    return "point %d %s lies outside the box of its leaf %d (bounds x2: %s .. %s on axis %d)" % (i, pts[i], nid, lo[a], hi[a], a)
     return None
 
 
@@ -544,7 +613,7 @@ def case_term(case, obs):
 
 
 def encodable(obs):
-    if obs["status"] != "ok" or any(a and a[0] == "error" for a in obs["knn"] + obs["rad"]):
+    if obs["status"] != "ok" or obs.get("nodes") is None or any(a and a[0] == "error" for a in obs["knn"] + obs["rad"]):
         return False
     nums = list(obs["pivots"]) + [x for row in obs.get("now", []) for x in row]
     for nd in obs["nodes"]:
@@ -630,6 +699,9 @@ def run(ctx):
             obs[j] = o
 
     fails = []
+    mech_fail = []
+    n_refused = 0
+    n_unobs = 0
     n_skipped = 0
     n_ties = 0
     for idx, (c, o) in enumerate(zip(cases, obs)):
@@ -673,6 +745,15 @@ def run(ctx):
         m = oracle(c, o)
         if m:
             fails.append((idx, m))
+        mech = mechanism_check(c, o)
+        if mech:
+            mech_fail.append((idx, mech))
+        if o["status"] == "error" or any(is_refusal(a) for a in o.get("knn", []) + o.get("rad", [])):
+            if free_forms(c) and not m:
+                ctx.count("refusal of an argument form the text does not name (accepted): " + ", ".join(free_forms(c))[:80])
+                n_refused += 1
+        if o.get("structure_error"):
+            n_unobs += 1
     # every failing case is classified; a failure counts against the obligation unless its class is a listed known finding
     classes = {}
     for idx, (kind, msg) in fails:
@@ -686,6 +767,13 @@ def run(ctx):
                    "%d cases, %d answers optimal only up to binary64 rounding" % (TOL_BITS, n_float_run, n_ties),
                    "oracle-on-implementation", not any(cases[i].get("float_only") for k in unknown for i, _, _ in classes[k]),
                    "these cases are outside the exact-arithmetic model and are not sent to Coq")
+    ctx.obligation("mechanism (not in the property sentence, never a concrete violation): every point lies in the box of its leaf; "
+                   "the node array could be read in all but %d cases" % n_unobs, "mechanism-on-implementation",
+                   not mech_fail and n_unobs == 0,
+                   ("; ".join("case %d: %s" % (i, t) for i, t in mech_fail[:3]) or "") + (" | node array unreadable in %d cases" % n_unobs if n_unobs else ""))
+    if mech_fail:
+        ctx.extra["mechanism_failures"] = [{"case": cases[i], "what": t} for i, t in mech_fail[:3]]
+    ctx.extra["accepted_refusals_of_unnamed_argument_forms"] = n_refused
     ctx.extra["rounding_class"] = {"cases": n_float_run, "answers_optimal_only_up_to_rounding": n_ties, "tolerance_bits": TOL_BITS}
 
     ctx.log("oracle done: %d failing cases" % len(fails))
@@ -693,7 +781,8 @@ def run(ctx):
     enc_idx = [i for i, o in enumerate(obs) if encodable(o) and not cases[i].get("float_only")]
     failing_idx = {i for i, _ in fails}
     dropped = [i for i, o in enumerate(obs) if not cases[i].get("float_only") and o["status"] != "skipped"
-               and i not in failing_idx and not encodable(o)]
+               and i not in failing_idx and not encodable(o)
+               and not (free_forms(cases[i]) and (o["status"] == "error" or any(is_refusal(a) for a in o.get("knn", []) + o.get("rad", []))))]
     ctx.obligation("harness: every generated case was run and every passing small-integer case was sent to Coq "
                    "(skipped after 3 time-outs in a shard: %d, unencodable without an oracle failure: %d)" % (n_skipped, len(dropped)),
                    "harness", n_skipped == 0 and not dropped and ctx.evaluations > 0,
